@@ -59,7 +59,7 @@ def _inject(ch):
     fault = copy.deepcopy(prog)
     twin = copy.deepcopy(prog)
     env_f, env_t = {}, {}
-    kind = ch.pick(["index", "index", "index", "alias-index", "alias-slice", "not-register", "not-register", "register-size"] + (["register-shrunk"] if n >= 2 else []))
+    kind = ch.pick(["index", "index", "index", "alias-index", "alias-slice", "not-register", "not-register", "register-size", "bad-count"] + (["register-shrunk"] if n >= 2 else []))
     via = None
     stage = "parse"
     bad = ch.pick(_bad_indices(tsize))
@@ -88,6 +88,35 @@ def _inject(ch):
         stage = "let"
         add_section(fault, ["ix", regname, 0])
         add_section(twin, ["ix", regname, 0])
+    elif kind == "bad-count":
+        # loop and subcircuit counts are integers: a fractional (or, through an override, a
+        # non-finite) value is refused when it becomes known
+        via = ch.pick(["let", "override", "macro-arg"])
+        where_ = ch.pick(["loop", "sub"])
+        badc = ch.pick([2.5, 0.5, -1.5])
+        if via == "override" and ch.bool():
+            badc = ch.pick([float("inf"), float("-inf"), float("nan")])
+        goodc = ch.pick([1, 2, 2.0])
+        desc = {"count": badc, "position": where_}
+
+        def counted(cnt):
+            inner = ["g", "X", [["ix", regname, 0]]]
+            return ["sub", None, [["loop", cnt, ["seq", [inner]]]]] if where_ == "loop" else ["sub", cnt, [inner]]
+
+        if via == "macro-arg":
+            for p, v in ((fault, badc), (twin, goodc)):
+                p["macros"].append({"name": "mzz", "params": ["pz"], "body": ["seq", [counted("pz")]]})
+                p["body"].append(["g", "mzz", [["n", v]]])
+            stage = "macro"
+        else:
+            fault["lets"].append(["zz", badc if via == "let" else goodc])
+            twin["lets"].append(["zz", goodc])
+            fault["body"].append(counted("zz"))
+            twin["body"].append(counted("zz"))
+            if via == "override":
+                env_f = {"zz": badc}
+                env_t = {"zz": ch.pick([1, 3])}
+            stage = "let"
     elif kind == "register-shrunk":
         # the INDEX is a literal and fine for the declared size; the register (sized by a let)
         # is made smaller - by an override, or by the declared value itself
@@ -181,7 +210,7 @@ def _inject(ch):
         add_section(fault, ["ix", "zr", 0])
         add_section(twin, ["ix", "zr", 0])
     else:
-        opts = ["undefined-array", "undefined-name", "macro-array-number"]
+        opts = ["undefined-array", "undefined-name", "macro-array-number", "loop-count-register", "count-macro-qubit"]
         if singles:
             opts.append("macro-array-single")
         if letnames:
@@ -193,7 +222,24 @@ def _inject(ch):
         if via == "undefined-array":
             add_section(fault, ["ix", "nosuch", 0])
         elif via == "undefined-name":
-            add_section(fault, ["id", "nosuch"])
+            # also names the builder uses internally for its own bookkeeping: they are
+            # undefined identifiers like any other
+            nm_ = ch.pick(["nosuch", "__in_context_subcircuit__", "__in_context_sequential__", "__in_context_parallel__"])
+            form_ = ch.int(0, 2)
+            if form_ == 0:
+                add_section(fault, ["id", nm_])
+            elif form_ == 1:
+                fault["body"].append(["sub", None, [["seq", [["g", "R1", [["ix", regname, 0], ["id", nm_]]]]]]])  # as a number
+            else:
+                fault["body"].append(["sub", None, [["par", [["g", "X", [["ix", regname, nm_]]]]]]])  # as an index
+        elif via == "loop-count-register":
+            # a loop count must be a number: the register (or an alias, or a qubit) is none
+            what = ch.pick([["id", regname]] + [["id", x] for x in singles[:1]] + [["id", t_[0]] for t_ in targets[1:2]])
+            fault["body"].append(["sub", None, [["loop", what[1], ["seq", [["g", "X", [["ix", regname, 0]]]]]]]])
+        elif via == "count-macro-qubit":
+            fault["macros"].append({"name": "mzz", "params": ["pz"], "body": ["seq", [["loop", "pz", ["seq", [["g", "X", [["ix", regname, 0]]]]]]]]})
+            fault["body"].append(["sub", None, [["g", "mzz", [["ix", regname, 0]]]]])
+            stage = "macro"
         elif via in ("macro-array-number", "macro-array-single"):
             # the index is applied to a macro PARAMETER; what it is applied to is only known
             # when the call is expanded
@@ -265,7 +311,7 @@ def references(case):
         # against is let-valued (the reference tracks what the offending check depends on)
         if STAGES.index(inv.stage) > STAGES.index(case["stage"]):
             case = dict(case, stage=inv.stage)
-    expected_kinds = {"index": {"index", "non-integer"}, "alias-index": {"index", "non-integer"}, "alias-slice": {"slice"}, "not-register": {"not-a-register", "undefined"}, "register-size": {"register-size", "non-integer"}, "register-shrunk": {"index", "slice"}}
+    expected_kinds = {"index": {"index", "non-integer"}, "alias-index": {"index", "non-integer"}, "alias-slice": {"slice"}, "not-register": {"not-a-register", "undefined", "not-a-number", "non-integer"}, "register-size": {"register-size", "non-integer"}, "register-shrunk": {"index", "slice"}, "bad-count": {"non-integer", "number"}}
     if ref_kind not in expected_kinds.get(case["kind"], ()):
         raise Skip()  # not the injected fault any more (only happens to shrunk / hand-edited cases)
     b_ = case["desc"].get("bad")
@@ -333,6 +379,7 @@ def _def_case(ch):
         kinds += ["unknown-gate", "arity", "kind", "macro-named-like-native", "kind-after-substitution"]
     if prog["macros"]:
         kinds.append("dup-macro")
+    kinds.append("dup-param")
     called = {s[1] for s in walk(prog["body"]) if s[0] == "g"} | {s[1] for m in prog["macros"] for s in walk([m["body"]]) if s[0] == "g"}
     called_macros = [m["name"] for m in prog["macros"] if m["name"] in called]
     if mode == "native" and called_macros:
@@ -351,6 +398,12 @@ def _def_case(ch):
         else:
             fault["maps"].append([name, reg, None])
         desc = f"dup:{form}-named-like-{'let' if name in lets else 'register' if name == reg else 'alias'}"
+    elif kind == "dup-param":
+        pn_ = ch.pick(["a", "p", "zz"])
+        n_par = ch.int(2, 3)
+        params_ = [pn_] * n_par if ch.bool() else [pn_, "zq", pn_][:n_par] if n_par == 3 else [pn_, pn_]
+        fault["macros"].append({"name": "mzz", "params": params_, "body": ["seq", []]})
+        desc = "dup-param"
     elif kind == "dup-macro":
         m = copy.deepcopy(ch.pick(prog["macros"]))
         fault["macros"].append(m)
@@ -418,6 +471,8 @@ def _fault_present(case):
     gates_used = [s for s in walk(f["body"]) if s[0] == "g"]
     if d.startswith("dup:"):
         return len(set(names)) != len(names)
+    if d == "dup-param":
+        return any(len(set(m["params"])) != len(m["params"]) for m in f["macros"])
     if d == "dup-macro":
         mn = [m["name"] for m in f["macros"]]
         return len(set(mn)) != len(mn)
